@@ -43,6 +43,7 @@ inductive Exc where
   | zeroDivisionError
   | indexError
   | templateError
+  | structError
 deriving DecidableEq, Repr
 
 def Exc.ofErr : Err → Exc
@@ -529,6 +530,22 @@ def timeStatus (parse : Except Exc Unit) : Nat :=
   match guarded parse with
   | .error st => st
   | .ok () => 200
+
+/-! ## `/time/http-ntp` (utctime.py:65-75) -/
+
+/-- the two 32-bit fields of the NTP timestamp; `us` = microseconds from
+1900-01-01T00:00:00Z to the drift-adjusted clock (`(now - epoch).total_seconds()`, here
+exact).  `int()` truncates towards zero, `%` is Python's; `struct.pack('>II', …)` raises
+`struct.error` for a value outside `0 … 2³²−1`. -/
+def ntpFields (us : Int) : Except Exc (Nat × Nat) :=
+  let whole := Int.tdiv us 1000000                     -- `int(seconds)`
+  let secs := Int.emod whole 4294967296                -- `% (1 << 32)`
+  let frac := Int.tdiv ((us - whole * 1000000) * 4294967296) 1000000   -- `int(fraction * (1 << 32))`
+  if frac < 0 ∨ frac ≥ 4294967296 ∨ secs < 0 ∨ secs ≥ 4294967296 then .error .structError
+  else .ok (secs.toNat, frac.toNat)
+
+/-- seconds from 1900-01-01 to 2000-03-16T00:00:00Z (= `MAX_TIME_SPAN`, 100 × 366 days) -/
+def ntpY2K : Int := 3162240000
 
 /-- the hypothesis of `handler_status_no_5xx_partial`: none of the calls the model does
 not look into raised an exception its caller does not catch -/
